@@ -166,6 +166,9 @@ var rdnAlpha = []refsid.RDN{
 	{"OU", "DC"},
 	{"CN", `b\`}, // emitted as CN=b\\ : the comma that follows IS a separator
 	{"DC", "CD"}, // a value made of the letters of the attribute type (prefix vs. cut-set trimming)
+	// DC values are not host-name labels (AD-integrated DNS zones: "_msdcs", "@", "example.com" as ONE value), and
+	// '@' occurs in ordinary RDN values (contacts named after a mail address)
+	{"DC", "lab_test"}, {"DC", "_msdcs"}, {"DC", "@"}, {"CN", "jdoe@partner.org"}, {"DC", "münchen"},
 }
 
 func dns(c *vf.Ctx) {
